@@ -197,6 +197,9 @@ unsafe impl CoreImpl<NTT120Avx> for NTT120Avx {
 #[cfg(all(kani, not(feature = "enable-avx")))]
 #[path = "znx_avx/mod.rs"]
 mod znx_avx;
+#[cfg(all(kani, not(feature = "enable-avx")))]
+#[path = "fft64/convolution.rs"]
+mod fft64_convolution_avx;
 #[cfg(kani)]
 mod verif_kani {
     include!(concat!(env!("POULPY_VERIF_KX"), "/cpu_avx/lib.rs"));
